@@ -942,3 +942,57 @@ def rule_walkup(ctx, prop):
                 rep.violation(f"{s_.key} stdin-config-root", "stdin does not use --stdin-filepath (when given) / the working "
                                                              "directory (otherwise) to find its configuration", s_.loc(), cfg)
     return rep
+
+
+def rule_fallback_locations(ctx, prop):
+    """R-CFG(h): the XDG / HOME fallback only gives up after the HOME locations were tried."""
+    from paths import Enumerator, TooManyPaths
+    rep = Report(prop, "R-CFG(h)", "search_config_locations: a path that does not return a found configuration has consulted "
+                                   "$HOME (after $XDG_CONFIG_HOME): an existing but empty $XDG_CONFIG_HOME does not end the search")
+    for cfg, prog in ctx.programs.items():
+        prog = _view(prog)
+        f = prog.fn("stylua", "config::ConfigResolver::<'_>::search_config_locations")
+        if not rep.anchor(f is not None, "search_config_locations", cfg):
+            continue
+        envs = {}
+        for b, t in f.calls():
+            if callee(t).endswith("std::env::var") or callee(t).endswith("env::var"):
+                names = [r[1][2:] for r in provenance(f, t["args"][0], through=None) if r[0] == "const" and r[1].startswith("s:")]
+                if names:
+                    envs[b] = names[0]
+        if not rep.anchor(set(envs.values()) == {"XDG_CONFIG_HOME", "HOME"}, f"env lookups of search_config_locations ({sorted(envs.values())})", cfg):
+            continue
+        try:
+            res = Enumerator(f, summaries=False, max_paths=60000).run()
+        except TooManyPaths:
+            rep.anchor(False, "search_config_locations: too many paths", cfg)
+            continue
+        n = 0
+        bad = set()
+        for st in res:
+            v0 = st.vals.get(0)
+            found = False
+            if v0 and v0[0] == "agg" and v0[2] == "Ok":
+                # Ok(Some(..)) ?  the payload aggregate is an Option::Some built on this path
+                for bb in st.trail:
+                    for s_ in f.blocks[bb]["st"]:
+                        if s_["k"] == "assign" and s_["rv"]["k"] == "agg" and s_["rv"].get("variant") == "Some" and \
+                                s_["rv"].get("adt", "").endswith("option::Option") and "Config" in f.local_ty(s_["dst"]["l"]):
+                            found = True
+            errp = any(c.endswith("from_residual") for _, c, _ in st.calls)
+            if found or errp:
+                continue
+            n += 1
+            visited = {envs[b] for b, c, t in st.calls if b in envs}
+            order = [envs[b] for b, c, t in st.calls if b in envs]
+            ok = "HOME" in visited and (order.index("XDG_CONFIG_HOME") < order.index("HOME") if "XDG_CONFIG_HOME" in order else False)
+            if not ok:
+                bad.add(tuple(order))
+        rep.inst(f"{f.key} gives up only after $XDG_CONFIG_HOME and then $HOME were consulted", {"giving-up paths": n}, cfg, ok=not bad and n > 0)
+        for order in sorted(bad)[:2]:
+            rep.violation(f"{f.key} gives-up-before-HOME consulted={list(order)}",
+                          f"search_config_locations can return without a configuration after consulting only {list(order)}: "
+                          f"with an existing $XDG_CONFIG_HOME that holds no stylua.toml the documented $HOME/.config and "
+                          f"$HOME/.config/stylua locations are never tried", f.loc(), cfg)
+        rep.floor("paths of search_config_locations that give up", n, 1, cfg)
+    return rep
